@@ -68,7 +68,14 @@ var vC05Cycles = 1
 func vReclaimed(e *vEnv, tag string, poolFree int) {
 	t := vNewTable()
 	t.apply(e.dp.msgs)
-	vAssert(tag+":datapath-has-no-rule-left", t.size() == 0)
+	// what the datapath itself refused to delete stays in the datapath - that is
+	// the environment's fault, not a leak of the agent: the rule image must be
+	// empty unless the LAST delete sent was refused (and then it must have been sent)
+	refusedDelete := false
+	if n := len(e.dp.msgs); n > 0 && e.dp.msgs[n-1].method == upfMsgTypeDel && e.dp.msgs[n-1].cause != 1 {
+		refusedDelete = true
+	}
+	vAssert(tag+":datapath-has-no-rule-left", t.size() == 0 || refusedDelete)
 	vAssert(tag+":session-record-removed", len(e.pc.store.GetAllSessions()) == 0)
 	vAssert(tag+":sessions-gauge-back-to-zero", e.m.sessionsGauge == 0)
 	vAssert(tag+":chosen-teids-released", len(e.u.fteidGenerator.usedMap) == 0)
@@ -150,11 +157,11 @@ func H_C05_end() {
 		}
 	case 1:
 		vTag("end=association-release")
-		e.dp.fixedCause = 1
+		e.dp.fixedCause = 0 // the association ends whatever the datapath answers to the deletes
 		e.vSend(message.NewAssociationReleaseRequest(3, ie.NewNodeID("", "", "cp.test")))
 	case 2:
 		vTag("end=peer-timeout-or-heartbeat-failure")
-		e.dp.fixedCause = 1
+		e.dp.fixedCause = 0 // as above: a datapath outage during teardown must not strand the session's resources
 		e.pc.Shutdown()
 	case 3:
 		vTag("end=report-response-context-not-found")
